@@ -58,7 +58,7 @@ def main():
         assert rc == 0, out
         os.makedirs(os.path.join(wt, '_out', 'p'))
         demo = os.path.join(wt, '_out', 'p', 'demo.py')
-        txt = re.sub(r'/tmp/wtP_C\d+', wt, open(os.path.join(src, 'demo.py')).read())
+        txt = re.sub(r'/tmp/wt[PQ]_C\d+', wt, open(os.path.join(src, 'demo.py')).read())
         open(demo, 'w').write(txt)
         env = dict(os.environ, PYTHONPATH=wt, PYTHONDONTWRITEBYTECODE='1')
         rc, out = sh([PY, demo], cwd=wt, env=env, timeout=900)
